@@ -1,4 +1,5 @@
 import GmQuic.Model.Pn
+import GmQuic.Gen.AckConsts
 /-!
 C10 (receiving direction) — `qrecovery/src/journal/rcvd.rs` `RcvdJournal` and `qbase/src/frame/ack.rs`
 `AckFrame::{iter, encoding_size}` transliterated branch by branch.
@@ -145,9 +146,11 @@ def onRcvdAck (s : State) (f : AckFrame) : Option State :=
 
 /-! ### gen_ack_frame_util -/
 
-/-- `range_count_size_increment`. -/
+/-- `range_count_size_increment`: boundaries and increments are REGENERATED from rcvd.rs on every run
+(`xlate/gen_ackconsts.py` → `Gen/AckConsts.lean`), not copied. -/
 def rangeCountIncr (n : Nat) : Nat :=
-  if n = 2 ^ 6 - 1 then 1 else if n = 2 ^ 14 - 1 then 2 else if n = 2 ^ 30 - 1 then 4 else 0
+  if n = ackIncrAt1 then ackIncrBy1 else if n = ackIncrAt2 then ackIncrBy2 else if n = ackIncrAt3 then ackIncrBy3
+  else ackIncrDefault
 
 structure Fold where
   gap : Nat
